@@ -289,7 +289,7 @@ func (e *Enc) applySpec(fr *Frame, st *State, spec *FuncSpec, ci calleeInfo, arg
 		} else {
 			t = c.Fresh("r:"+shortFn(spec.Name), sortOf(rt))
 		}
-		if wf := e.wellFormed(t, rt, st.Alloc); !wf.IsTrue() {
+		if wf := e.wellFormed(t, rt, st); !wf.IsTrue() {
 			e.assume(st, wf)
 		}
 		results = append(results, &Val{T: t})
